@@ -236,14 +236,19 @@ def real_body(program: str) -> tuple[list[str], list[str]]:
 
 
 def parse_model(ans: str):
-    """-> ('program', args, body) | ('refuse', why) | ('unmodelled', why) | ('error', text)"""
+    """-> ('program', args, body, fragment: 'yes' | 'no <kinds>' | None) | ('refuse', why) | ('unmodelled', why) | ('error', text)"""
     if not ans.startswith("ok "):
         return ("error", ans)
     a = ans[3:]
     if a.startswith("program "):
         parts = a.split("\t")
         args = [x for x in parts[0][len("program "):].split(",") if x]
-        return ("program", args, parts[1:])
+        body = parts[1:]
+        frag = None
+        if body and body[-1].startswith("#fragment "):
+            frag = body[-1][len("#fragment "):]
+            body = body[:-1]
+        return ("program", args, body, frag)
     if a.startswith("refuse "):
         return ("refuse", a[7:])
     if a.startswith("unmodelled "):
